@@ -79,6 +79,39 @@ pub fn check_print(s: &[u32], o: &mut Outcome) {
     }
 }
 
+/// The two per-character printers (`char_to_smt`, `smt_char_as_string`: "convert an SMT character to a
+/// string literal" / "to a string in the SMT syntax") are the same escaping rules applied to one code
+/// point; they are judged like the Display form — printable ASCII only, and the text denotes the
+/// one-character string [x] by the crate's reader and by the reference reader — not by their spelling.
+pub fn check_char_printers(x: u32, o: &mut Outcome) {
+    for (name, text) in [("char_to_smt", char_to_smt(x)), ("smt_char_as_string", smt_char_as_string(x))] {
+        o.evals += 1;
+        let cps: Vec<u32> = text.chars().map(|c| c as u32).collect();
+        if let Some(&bad) = cps.iter().find(|&&c| !(0x20..0x7F).contains(&c)) {
+            o.fail("C08/char-printer/not-printable-ascii", format!("{}({:#x}) = {:?} contains {:#x}", name, x, text, bad));
+            continue;
+        }
+        let undoubled: Vec<u32> = if x == 0x22 {
+            if cps != [0x22, 0x22] {
+                o.fail("C08/char-printer/quote-not-doubled", format!("{}({:#x}) = {:?}", name, x, text));
+                continue;
+            }
+            vec![0x22]
+        } else {
+            if cps.contains(&0x22) {
+                o.fail("C08/char-printer/quote-not-doubled", format!("{}({:#x}) = {:?} contains a double quote", name, x, text));
+                continue;
+            }
+            cps.clone()
+        };
+        let back = parse_smt_literal(&to_text(&undoubled));
+        let back2 = r8::parse_literal(&undoubled);
+        if back.as_ref() != [x] || back2 != [x] {
+            o.fail("C08/char-printer/roundtrip", format!("{}({:#x}) = {:?} reads back as {} (reference reader: {})", name, x, text, show_str(back.as_ref()), show_str(&back2)));
+        }
+    }
+}
+
 const TOKENS: &[&[u32]] = &[
     &[0x5C],
     &[0x75],
@@ -314,6 +347,7 @@ pub fn enumerate(thorough: bool, part: usize, parts: usize, sink: &mut EnumSink)
         let mut o = Outcome::default();
         check_print(&[x], &mut o);
         check_print(&[0x5C, 0x75, x], &mut o);
+        check_char_printers(x, &mut o);
         if char::from_u32(x).is_some() {
             check_parse(&[0x5C, 0x75, x, 0x7B, x], &mut o);
         }
@@ -322,7 +356,7 @@ pub fn enumerate(thorough: bool, part: usize, parts: usize, sink: &mut EnumSink)
     }
     if part == 0 {
         sink.stats.exhaustive_spaces.push(format!(
-            "all texts of length <= {} over the 10 symbols \\ u {{ }} 0 2 3 f A g; all structured texts prefix.\\u[{{]hex^k.terminator.suffix for k <= 7; all strings of length <= {} over 9 code points (\\ u {{ }} 4 1 \" 0x7f 0x2ffff) printed and read back; every single code point printed",
+            "all texts of length <= {} over the 10 symbols \\ u {{ }} 0 2 3 f A g; all structured texts prefix.\\u[{{]hex^k.terminator.suffix for k <= 7; all strings of length <= {} over 9 code points (\\ u {{ }} 4 1 \" 0x7f 0x2ffff) printed and read back; every single code point printed (Display, char_to_smt, smt_char_as_string)",
             max_len, plen
         ));
         sink.stats.samples.push("[enum] text `\\u{2f}` ; text `\\u{\\u0041` ; string <5c 75 7b 34 31 7d>".to_string());
